@@ -15,7 +15,7 @@ Node ops (one current node)
 * `{"op":"setCommit","v":n}`, `{"op":"append","entries":[ENTRY…]}`, `{"op":"subscribe","idx":i,"term":t,"cb":c}`
 * `{"op":"apply"}` → `{"ev":[…],"state":STATE}`
 * `{"op":"setver","v":n}` → `{"setver":["tooHigh",self,req] | ["tooLow",enabled,req] | ["queued",v]}`
-* `{"op":"dump","user":bool}` → `{"dump":null | {"enabled":e|null,"prev":ENTRY,"last":ENTRY}}` (remembered)
+* `{"op":"dump"}` → `{"dump":null | {"enabled":e|null,"prev":ENTRY,"last":ENTRY}}` (remembered)
 * `{"op":"load","clear":bool}` → `{"state":STATE}` (loads the remembered dump into the current node)
 * `{"op":"compact"}` → `{"state":STATE}` (second phase of the compaction for the remembered dump)
 * `{"op":"restart","cls":CLS,"keepLog":bool}` → fresh node on code CLS (log and commit kept when `keepLog`)
@@ -165,8 +165,7 @@ def step (st : St) (j : Json) : Except String (St × Json) := do
       | .queued v => Json.arr #[Json.str "queued", nat v]
     return (st, Json.mkObj [("setver", r)])
   | "dump" =>
-    let user ← (← field j "user").getBool?
-    let d := takeDump st.node user
+    let d := takeDump st.node
     let dj := match d with
       | none => Json.null
       | some d => Json.mkObj [("enabled", optNat d.enabled), ("prev", entry d.prev), ("last", entry d.last)]
